@@ -192,10 +192,14 @@ def fmtHeaders (lib : Lib) (h : Hdrs) : List (Text × Text) := h.map (fun f => (
 
 def methodOf (lib : Lib) (m : Bytes) : Text := lib.upper (lib.sdec m)
 
+/-- the `url` written to the entry -/
+def exportUrl (lib : Lib) (f : Flow) : Text :=
+  if methodOf lib f.method = L "CONNECT" then L "https://" ++ f.purl ++ L "/" else f.purl
+
 def exportReq (lib : Lib) (f : Flow) : HarReq :=
   let m := methodOf lib f.method
   { method := m
-    url := if m = L "CONNECT" then L "https://" ++ f.purl ++ L "/" else f.purl
+    url := exportUrl lib f
     httpVersion := lib.sdec f.req.ver
     headers := fmtHeaders lib f.req.hdrs
     postData := if isBodyMethod m then some (getText lib f.req) else none }
